@@ -2,6 +2,7 @@ import RockitModel.Proofs.Objective
 import Mathlib.Algebra.Module.Prod
 import Mathlib.Tactic.FieldSimp
 import RockitModel.Proofs.RKTie
+import RockitModel.Proofs.Weights
 /-!
 # C05 — the NLP objective is the sum of the declared Mayer, sum and integral terms
 -/
@@ -134,9 +135,26 @@ theorem weights_sum_one_4 (a b c d : K) (hab : a ≠ b) (hac : a ≠ c) (had : a
   field_simp
   ring
 
+/-- **for EVERY degree and every choice of pairwise distinct collocation points** the quadrature weights sum to
+one: constants are integrated exactly (no property of Radau or Legendre points is used) -/
+theorem weights_sum_one (tau : List K) (hn : tau.Nodup) (hne : tau ≠ []) : ((collocCoeff tau).B).sum = 1 := by
+  simpa [collocCoeff] using LP.sum_integ01_basis tau hn hne
+
+/-- … and more: the collocation quadrature `Σ_j B_j q(τ_j)` is exact for every polynomial integrand with at most `d`
+coefficients (degree `< d`), for any pairwise distinct points -/
+theorem colloc_quadrature_exact (tau : List K) (hn : tau.Nodup) (hne : tau ≠ []) (q : List K) (hq : q.length ≤ tau.length) :
+    ((List.range tau.length).map (fun j => ((collocCoeff tau).B).getD j 0 * LP.eval q (tau.getD j 0))).sum = LP.integ01 q := by
+  rw [← LP.quadrature_exact tau hn q hq hne]
+  congr 1
+  apply List.map_congr_left
+  intro j hj
+  have hj' : j < tau.length := by simpa using hj
+  simp [collocCoeff, List.getD_eq_getElem?_getD, hj']
+
 end weights
 
 /-! non-vacuity -/
+example : ([(1:ℚ)/3, 1]).Nodup ∧ ([(1:ℚ)/3, 1]) ≠ [] := ⟨by norm_num, by simp⟩
 example : ((collocCoeff [(1:ℚ)]).B) = [1] := by
   simp [collocCoeff, LP.basis, LP.others, LP.lagrange, LP.integ01, LP.integ01Aux]
 
